@@ -173,7 +173,7 @@ def pubWorldOp (j : Json) : Except String Res := do
   let hostOf (id : Json) : String := match id with
     | Json.str s => (hostOfId s).getD (((s.splitOn "/").take 3).foldl (· ++ "/" ++ ·) "")
     | _ => ""
-  let rec authorsOk (d : Json) : Bool :=
+  let postAuthorsOk (d : Json) : Bool :=
     match d.getObjVal? "k" with
     | .ok (Json.str "post") =>
       let pid := (d.getObjVal? "id").toOption.getD Json.null
@@ -186,6 +186,11 @@ def pubWorldOp (j : Json) : Except String Res := do
         | _ => true
       | _ => true
     | _ => true
+  -- ... also when the post is shown as what an activity is about (and that activity inside another)
+  let authorsOk (d : Json) : Bool :=
+    let t1 := (d.getObjVal? "target").toOption.getD Json.null
+    let t2 := (t1.getObjVal? "target").toOption.getD Json.null
+    postAuthorsOk d && postAuthorsOk t1 && postAuthorsOk t2
   let authors := all.all authorsOk
   -- C10: the listing delivers the items of the pages, each once, in order (ids and kinds of the
   -- delivered entries against the harvest of the model over the same world)
@@ -217,8 +222,17 @@ def pubWorldOp (j : Json) : Except String Res := do
     lines.all (fun l => !(l.toList.any fun c => c.toNat < 32 || c.toNat == 127)) &&
     target.length == 1 && !(target.any fun t => t.toList.contains '#' || (!worldHasEscapedHash && (t.splitOn "%23").length > 1))
   let canary := ((j.getObjVal? "canaryhits").toOption.bind (·.getNat?.toOption)).getD 0
+  -- the documents fetched once more after the items were built (nothing is written to a document)
+  let refetchOk := match j.getObjVal? "refetch_differs" with
+    | .ok (Json.arr a) => a.isEmpty
+    | _ => true
+  -- what the world put on the screen
+  let shown : List Str := match j.getObjVal? "shown" with
+    | .ok (Json.arr a) => a.toList.filterMap fun v => match v with | Json.str s => some s.toList | _ => none
+    | _ => []
   pure { model := Json.mkObj fields,
-         preds := [("served_by_the_host_in_its_id", prov), ("listed_entries_are_genuine", genuine),
+         preds := [("safe_output", shown.all Safe.safe), ("neutral_at_line_ends", shown.all Cells.neutralAtBreaks),
+                   ("served_by_the_host_in_its_id", prov), ("refetched_document_is_what_was_served", refetchOk), ("listed_entries_are_genuine", genuine),
                    ("authors_share_the_posts_host", authors), ("listing_is_the_pages_items_in_order", pagesOk),
                    ("requests_wellformed", wireOk), ("no_plaintext_connection", canary == 0)],
          nontrivial := kidsI.length ≥ 1 || (match impl.getObjVal? "parents" with | .ok (Json.arr a) => a.size ≥ 1 | _ => false) }
